@@ -133,22 +133,12 @@ public:
       // incomplete types are counted in bytes
       size_t el_size = 1;
       using T_El = std::remove_cv_t<T_Pointed>;
-      if constexpr (detail::is_basic_type_v<T_El> && !std::is_void_v<T_El>) {
-        el_size = sizeof(tainted_volatile<T_El, T_Sbx>);
-        if (sizeof(T_El) > el_size) {
-          el_size = sizeof(T_El);
-        }
-      } else if constexpr (detail::is_complete_object_v<T_El>) {
+      if constexpr (detail::is_complete_object_v<T_El>) {
         el_size = sizeof(T_El);
-        using T_Base = std::remove_cv_t<std::remove_all_extents_t<T_El>>;
-        if constexpr (std::is_class_v<T_Base>
-                        ? detail::has_sandbox_equivalent_v<T_Base, T_Sbx>
-                        : detail::is_basic_type_v<T_Base>) {
-          constexpr size_t sbx_size = sizeof(tainted_volatile<T_Base, T_Sbx>) *
-                                      (sizeof(T_El) / sizeof(T_Base));
-          if (sbx_size > el_size) {
-            el_size = sbx_size;
-          }
+        constexpr size_t sbx_size =
+          detail::sandbox_image_size<T_El, T_Sbx>::value;
+        if (sbx_size > el_size) {
+          el_size = sbx_size;
         }
       }
       detail::dynamic_check(
@@ -660,10 +650,16 @@ public:
           // pointer value that was checked above
           // (through a pointer to the unqualified pointee: the sandbox's
           // representation is defined for the type, not for its cv variants)
-          auto val_checked = tainted<T_Deref*, T_Sbx>::internal_factory(
-            const_cast<T_Deref*>(val));
           auto val_copy = std::make_unique<T_Deref>();
-          *val_copy = (*val_checked).get_raw_value();
+          if constexpr (detail::sandbox_image_size<T_Deref, T_Sbx>::known) {
+            auto val_checked = tainted<T_Deref*, T_Sbx>::internal_factory(
+              const_cast<T_Deref*>(val));
+            *val_copy = (*val_checked).get_raw_value();
+          } else {
+            // a pointee RLBox has no representation for (a union, ...): its
+            // bytes are taken as they are
+            *val_copy = *val;
+          }
           return verifier(std::move(val_copy));
         }
       }
@@ -721,12 +717,13 @@ private:
 
     // The range occupied in sandbox memory depends on the size of the element
     // under the sandbox's ABI, which may differ from the application's
-    using T_SbxEl = tainted_volatile<T_CopyAndVerifyRangeEl, T_Sbx>;
+    constexpr std::size_t el_size =
+      detail::sandbox_image_size<T_CopyAndVerifyRangeEl, T_Sbx>::value;
     detail::dynamic_check(
-      count <= std::numeric_limits<std::size_t>::max() / sizeof(T_SbxEl),
+      count <= std::numeric_limits<std::size_t>::max() / el_size,
       "Range size overflow in copy_and_verify_range/copy_and_verify_string");
     detail::check_range_doesnt_cross_app_sbx_boundary<T_Sbx>(
-      start, count * sizeof(T_SbxEl));
+      start, count * el_size);
 
     return start;
   }
